@@ -17,7 +17,7 @@ def make_cases(seed, run, n):
         pre = gen.gen_preamble(r, nbps=r.choice([1, 2]))
         comp = ['none', 'none', 'gzip', 'xz'][i % 4]
         cases.append(gen.gen_history(r, 'r%dw%03d' % (run, i), preamble=pre, comp=comp, kind=r.choice(['name', 'fd']), nops=r.choice([10, 40, 120]), big=(i % 5 == 0),
-                                     weights=dict(rotate=4)))
+                                     weights=dict(rotate=4, rotate_bad=2)))
     return cases
 
 
